@@ -199,18 +199,18 @@ def run_vdrive(build, script_text, work, *, asan=False, mtx=True, heap=False, ti
                              stderr=subprocess.PIPE, close_fds=True, start_new_session=True)
     except OSError as e:
         raise Harness("cannot start vdrive: %s" % e)
+    # wait for the driver itself, not for EOF on its stderr: a hung descendant of a killed case may still hold that pipe
     try:
-        _, err = p.communicate(timeout=timeout)
-        res.stderr = err or b""
+        p.wait(timeout=timeout)
     except subprocess.TimeoutExpired:
         res.timeout = True
         res.hang_info = hang_info(p.pid)
-        try:
-            os.killpg(p.pid, signal.SIGKILL)
-        except OSError:
-            pass
-        _, err = p.communicate()
-        res.stderr = err or b""
+    try:
+        os.killpg(p.pid, signal.SIGKILL)        # the driver if it hangs, and stragglers of its session in any case
+    except OSError:
+        pass
+    _, err = p.communicate()
+    res.stderr = err or b""
     res.rc = p.returncode
     if p.returncode is not None and p.returncode < 0:
         res.signal = -p.returncode
